@@ -26,6 +26,10 @@ func VerifNewPacketConn(under net.PacketConn, addr net.Addr) *VerifPacketConn {
 	return &VerifPacketConn{Conn: pc, pc: pc, closeCh: closeCh}
 }
 
+// Real returns the virtual connection itself, with its own dynamic type (it is a net.PacketConn too), as
+// Server.handle gets it from the server loop.
+func (v *VerifPacketConn) Real() net.Conn { return v.pc }
+
 // DrainCloseNotifications consumes, in the background, the notifications the
 // virtual connection sends to its (absent) server loop.
 func (v *VerifPacketConn) DrainCloseNotifications() {
